@@ -634,13 +634,16 @@ def run_inverse(ctx: Ctx) -> None:
                     if kind == "callable":
                         it.method(t, "condition_", Rat.atom("cond1"))
                     it.method(t, "update")
+                    u_before = it.method(t, "tensor").clone()
                     inv = it.getattr(t, "inv") if via == "inv" else it.method(t, "inverse", link=link, update_buffers=upd)
                     if inv is t:
                         return False, "inverse() returned the transform itself"
+                    if not teq(it.method(t, "tensor"), u_before):
+                        return False, f"{cls}: taking the inverse changed the buffered displacement of the transform itself"
                     if upd:
                         # the buffered displacement must already be the inverse one
-                        u_t, u_i = it.method(t, "tensor"), it.method(inv, "tensor")
-                        if not teq(u_i, u_t.mul(-1)):
+                        u_i = it.method(inv, "tensor")
+                        if not teq(u_i, u_before.mul(-1)):
                             return False, f"{cls}: inverse(update_buffers=True) did not update the buffered displacement"
                     del rec[:]
                     it.method(t, "update")
